@@ -57,8 +57,8 @@ THEOREMS_SECT = [
     "NfcVerif.C03Sect.reader_commands_land",
     "NfcVerif.C03Sect.reader_selects_sector",
     "NfcVerif.C03Sect.sector_select_keeps_belief",
+    "NfcVerif.C03Sect.reactivation_sound",
     "NfcVerif.C03Sect.unfaithful_ack_counterexample",   # why the passive ack must be assumed faithful
-    "NfcVerif.C03Sect.reactivation_counterexample",     # open finding t2-sector-stale-after-reactivation
 ]
 
 FIELD_RUNS = []
@@ -1162,9 +1162,11 @@ def sequences(ck, model3):
 # ====================================================================== Type 2 Tags with several sectors, faults
 SECT_FAULTS = [("drop",), ("corrupt", "transmission"), ("corrupt", "protocol"), ("corrupt", "nak"),
                ("lost", "timeout"), ("lost", "transmission"), ("lost", "protocol")]
-# packet 2 of SECTOR SELECT: faults under which the passive acknowledgement stays faithful (the tag received a damaged
-# frame, did not switch, and the reader saw something other than silence)
-SECT_FAULTS_P2 = [("corrupt", "transmission"), ("corrupt", "protocol"), ("corrupt", "nak")]
+# packet 2 of SECTOR SELECT: faults under which the passive acknowledgement stays faithful: the tag received a damaged
+# frame, did not switch, and the reader saw something other than silence; or the tag switched and its silence was
+# disturbed (damaged answer: the code forgets the sector and selects again)
+SECT_FAULTS_P2 = [("corrupt", "transmission"), ("corrupt", "protocol"), ("corrupt", "nak"),
+                  ("lost", "transmission"), ("lost", "protocol")]
 
 
 def sector_tie(ck, model3):
@@ -1210,22 +1212,9 @@ def sector_tie(ck, model3):
                 out.append("exc " + exc_name(e))
         tr = ",".join("%s:%d:%d:%d:%s" % (k[0], real, -1 if bel is None else bel, page, hx(d)) for k, real, bel, page, d in sim.trace) or "-"
         line = "; ".join(out) + " | " + tr + " | %d %d %d %d %d" % (
-            sim.sector, tag._current_sector, int(sim.pend), int(sim.amb_ack or sim.amb_sense), len(mr))
+            sim.sector, -1 if tag._current_sector is None else tag._current_sector, int(sim.pend), int(sim.amb_ack), len(mr))
         return line, sim
 
-    # does this tree reset _current_sector when read() re-activates the tag (proposed repair of the open finding
-    # t2-sector-stale-after-reactivation)?  The model is the code AS FOUND; on a repaired tree the histories in which
-    # a re-activation happened in an upper sector are not compared.
-    try:
-        _, psim = run_ops(bytes(1040), [None, None, ("corrupt", "nak")], [("S", 1), ("R", 256)])
-        repaired = psim.obj._current_sector == 0
-    except Exception as e:  # noqa
-        repaired = False
-        ck.fail("t2-sector-unexpected-exception", "probe sector_select(1); read(256) with NAK raised %s: %s" % (exc_name(e), e),
-                {"op": "sector-history", "ops": ["S1", "R256"], "script": ["o", "o", "cn"]})
-    if repaired:
-        ck.notes.append("this tree resets _current_sector on re-activation (repair of t2-sector-stale-after-reactivation): "
-                        "histories with a re-activation in an upper sector are left out of the SectC03 comparison")
     n = 2500 if ck.thorough else 260
     for i in range(n):
         size = rng.choice([1024 + 64, 1024 + 256, 2048, 2048 + 48, 3072, 4096, 1024, 512, 1024 + 20])
@@ -1271,9 +1260,6 @@ def sector_tie(ck, model3):
                 "sector-history:%d sectors:%s" % ((size + 1023) // 1024, "faults" if script else "clean"),
                 sample={"op": "sector-history", "ops": replay["ops"], "script": replay["script"]} if i < 2 else None)
         ck.count("sector-history: SECTOR SELECTs executed by the tag: %s" % ("0" if nsel == 0 else "1-2" if nsel < 3 else "3+"))
-        if repaired and sim.amb_sense:
-            ck.count("sector-history not compared (repaired tree, re-activation in an upper sector)")
-            continue
         tie.add(req, line, replay)
     tie.close()
 
@@ -1284,7 +1270,7 @@ def sectors(ck, model3):
     application, which assigns again through the SAME tag / ndef object.  After every assignment: every WRITE the
     tag executed must cover a byte of the NDEF area (absolute address: sector the tag really was in), no byte outside
     the area may have changed, and no WRITE may have been executed while the object believed another sector than the
-    tag was in.  Histories in which the passive acknowledgement of packet 2 was not faithful (no reader can handle
+    tag was in (an unknown belief, _current_sector None, is legal: the next access selects its sector again).  Histories in which the passive acknowledgement of packet 2 was not faithful (no reader can handle
     that) are counted and not judged."""
     from sims.c03_faults import T2SectorSim, activate_sector, sector_layout, KindFaults
     import nfc.tag
@@ -1296,7 +1282,8 @@ def sectors(ck, model3):
     ck.assumptions += [
         "several sectors: the passive acknowledgement of SECTOR SELECT packet 2 is faithful (silence within 1 ms <=> the tag "
         "switched); histories in which it is not are counted, not judged (no reader can tell them from the normal cases)",
-        "a re-activated Type 2 Tag has sector 0 selected; clf.sense() finds the tag again",
+        "a re-activated Type 2 Tag has sector 0 selected; clf.sense() finds the tag again; after a damaged answer to "
+        "packet 2 the tag may be in either sector (the code forgets the sector: _current_sector None is a legal state)",
     ]
     ck.trusted += ["hand-written Lean model NfcVerif.Model.SectC03 tied to Type2Tag.sector_select/read/write/transceive and "
                    "Type2TagMemoryReader by differential runs with fault scripts", "harness/sims/c03_faults.py"]
@@ -1366,9 +1353,7 @@ def sectors(ck, model3):
                 t = stale[0]
                 key_sfx, msg = "write-in-wrong-sector", "WRITE page %d executed in sector %d while the tag object believed sector %d" % (t[3], t[1], t[2])
             if key_sfx:
-                key = "t2-sector-stale-after-reactivation" if amb_sense else "t2-sector-" + key_sfx
-                ck.fail(key, "%s: %s%s" % (where, msg, "; the tag had been re-activated (READ answered with NAK) while the object "
-                                            "believed a sector other than 0" if amb_sense else ""), replay)
+                ck.fail("t2-sector-" + key_sfx, "%s: %s" % (where, msg), replay)
                 break
             if out not in ("ok",) and not out.startswith("exc TagCommandError"):
                 ck.fail("t2-sector-unexpected-exception", "%s ended with %s" % (where, out), replay)
